@@ -495,6 +495,8 @@ impl AddressLookupServices {
         if let Some(data) = &*data {
             service.publish(data)
         }
+        #[cfg(feature = "verif-hooks")]
+        crate::verif_hooks::sched::pause_sync("lookup.add.after_read");
         self.services.write().expect("poisoned").push(service);
     }
 
@@ -525,9 +527,13 @@ impl AddressLookupServices {
         // end up with the same data, and excludes a concurrent `add_boxed`.
         let mut last_data = self.last_data.write().expect("poisoned");
         let services = self.services.read().expect("poisoned");
+        #[cfg(feature = "verif-hooks")]
+        crate::verif_hooks::sched::pause_sync("lookup.publish.after_services");
         for service in &*services {
             service.publish(&data);
         }
+        #[cfg(feature = "verif-hooks")]
+        crate::verif_hooks::sched::pause_sync("lookup.publish.before_store");
 
         last_data.replace(data.into_owned());
     }
